@@ -1206,7 +1206,12 @@ func (s *sharedEntryAttributes) validateMandatoryWithKeys(ctx context.Context, l
 		// if not the path exists in the tree and is not to be deleted, then lookup in the paths index of the store
 		// and see if such path exists, if not raise the error
 		if !(existsInTree && v.remainsToExist()) {
+			// the intent that is being set is in the tree with its new content: what the intended store still holds
+			// of its former version does not count
 			exists, err := s.treeContext.cacheClient.IntendedPathExists(ctx, append(s.Path(), attribute))
+			if exists && err == nil {
+				exists = s.treeContext.cacheClient.GetBranchesHighesPrecedence(ctx, append(s.Path(), attribute), CacheUpdateFilterExcludeOwner(s.treeContext.GetActualOwner())) != math.MaxInt32
+			}
 			owner := "unknown"
 			if s.leafVariants.Length() > 0 {
 				s.leafVariants.GetHighestPrecedence(false, true).Owner()
